@@ -237,3 +237,18 @@ package mocktikv
 //@   loop 1 invariant skipped: forall j int :: 0 <= j && j <= rangeindex ==> !visibleVer(e.values[j], ts)
 //@   at return assert newest: result1 == nil ==> (defined(v) && visibleVer(v, ts)) ||
 //@       (result0 == nil && forall j int :: 0 <= j && j < len(e.values) ==> !visibleVer(e.values[j], ts))
+
+// ---- raw scan of one region (C11): the store is asked for the request's range clipped to the region -------------------------
+// Forward: from the request's start key up to the smaller of the request's end and the region's end ("" = unbounded).
+// Reverse: from the request's start key (exclusive upper bound) down to the LARGER of the request's end key and the region's
+// start key - a request that reaches below the region must not return pairs of the regions below (the client stitches the
+// per-region answers together and would report them twice).
+//@ spec func rawMinEnd(a []byte, b []byte) []byte { return ite(a != "" && (b == "" || a < b), a, b) }
+//@ spec func rawMaxKey(a []byte, b []byte) []byte { return ite(a > b, a, b) }
+//@ func (kvHandler) handleKvRawScan
+//@   prop C11
+//@   bytes: key
+//@   may-panic
+//@   opaque-callee convertToPbPairs
+//@   at call(RawReverseScan) assert clipr: req.Reverse && arg_startKey == req.StartKey && arg_endKey == rawMaxKey(req.EndKey, h.startKey) && arg_limit == int(req.Limit)
+//@   at call(RawScan) assert clip: !req.Reverse && arg_startKey == req.StartKey && arg_endKey == rawMinEnd(req.EndKey, h.endKey) && arg_limit == int(req.Limit)
